@@ -305,15 +305,17 @@ def list_for_resource_provider(req):
     uuid = util.wsgi_path_item(req.environ, 'uuid')
 
     # confirm existence of resource provider so we get a reasonable
-    # 404 instead of empty list
-    try:
-        rp = rp_obj.ResourceProvider.get_by_uuid(context, uuid)
-    except exception.NotFound as exc:
-        raise webob.exc.HTTPNotFound(
-            "Resource provider '%(rp_uuid)s' not found: %(error)s" %
-            {'rp_uuid': uuid, 'error': exc})
+    # 404 instead of empty list; read it and its allocations in one
+    # transaction, so that the generation reported belongs to them
+    with db_api.placement_context_manager.reader.using(context):
+        try:
+            rp = rp_obj.ResourceProvider.get_by_uuid(context, uuid)
+        except exception.NotFound as exc:
+            raise webob.exc.HTTPNotFound(
+                "Resource provider '%(rp_uuid)s' not found: %(error)s" %
+                {'rp_uuid': uuid, 'error': exc})
 
-    allocs = alloc_obj.get_all_by_resource_provider(context, rp)
+        allocs = alloc_obj.get_all_by_resource_provider(context, rp)
 
     output = _serialize_allocations_for_resource_provider(
         allocs, rp, want_version)
